@@ -113,6 +113,9 @@ class Ctx:
                 self.trusted.append(t)
         for d in rep.get("defects", []):
             self.defects.append(d)
+        self.notes.setdefault("entry_preconditions_assumed", {}).update(rep.get("entry_preconditions", {}))
+        self.notes.setdefault("callback_assumptions", {}).update(rep.get("callback_assumptions", {}))
+        self.notes["axioms_in_hypotheses"] = rep.get("lemma_axioms", [])
 
 
 def load_known():
